@@ -68,6 +68,8 @@ Proof. exact Paged.c10_refuted_F48. Qed.
 (* repair F56: PagedResults::finish() hands out no result that still carries a live paging cookie - in any state of the stream *)
 Theorem c10_finish_never_a_page_result : forall s, Paged.cookie_of (snd (fst (Paged.finish56 s))) = [].
 Proof. exact Paged.c10_finish_never_a_page_result. Qed.
+Theorem c16_finish_no_paging_control : forall s, existsb Paged.is_paged (Paged.ctrls (snd (fst (Paged.finish56 s)))) = false.
+Proof. exact Paged.c16_finish_no_paging_control. Qed.
 Theorem c10_refuted_F56 : let s := Paged.mkS Paged.SError None (Some (Paged.mkRes 0 [Paged.CPaged 0 [x01]])) 7 [] 2 [] [] in
   snd (fst (Paged.finish s)) = Paged.mkRes 0 [Paged.CPaged 0 [x01]] /\ snd (fst (Paged.finish56 s)) = Paged.cancelled.
 Proof. exact Paged.c10_refuted_F56. Qed.
@@ -89,3 +91,4 @@ Print Assumptions c10_abandoned_switch.
 Print Assumptions c10_refuted_F48.
 Print Assumptions c10_finish_never_a_page_result.
 Print Assumptions c10_refuted_F56.
+Print Assumptions c16_finish_no_paging_control.
